@@ -1317,8 +1317,15 @@ def refit_stream(rng, spec, cell, refits=4):
     # (C) one specification, then a run of refits with independently drawn arguments (plans, p, seeds, n_splits, t_max,
     # solver ...), each judged against a fresh object: nothing of an earlier fit may reach a later one
     c = [variant(rng, m, cell, False) for m in specs]
-    for _ in range(refits):
-        c += [new_op(rng, pick(rng, fits), cell)]
+
+    def size(op):      # numeric arguments of a fit call (n_splits, samples, t_max, p, maxiter ...), seeds excluded
+        return tuple(sorted((k, float(v)) for k, v in op['args'].items()
+                            if isinstance(v, (int, float)) and not isinstance(v, bool) and 'seed' not in k
+                            and k != 'random_state'))
+    cands = [new_op(rng, pick(rng, fits), cell) for _ in range(6)]
+    lo, hi = min(cands, key=size), max(cands, key=size)
+    run_ = [lo, hi, copy.deepcopy(lo)] + [new_op(rng, pick(rng, fits), cell) for _ in range(max(0, refits - 3))]
+    c += run_[:max(refits, 3)]          # small -> large -> small again, then random
     c += [new_op(rng, m, cell) for m in res]
     return [a, b, c]
 
@@ -1638,11 +1645,11 @@ def run(chk, drv, rng, tier):
             chk.h_checked += 1
             hs = []
             heavy = bool(spec.quick_cells)       # cross-fit estimators: every fit is (partitions x splits x 2) learner fits
-            if ci == 0 or not quick:
-                hs += [(ops, True) for ops in guard_stream(rng, spec, cell) if not (heavy and quick and len(ops) > 1)]
+            if ci == 0 or (not quick and ci < 4):      # the guards do not depend on the cell beyond `miss`
+                hs += [(ops, True) for ops in guard_stream(rng, spec, cell) if not (heavy and len(ops) > 1)]
             hs += [(ops, True) for ops in refit_stream(rng, spec, cell, refits=3 if (heavy and quick) else 4)
                    ][(2 if (heavy and quick) else 0):]        # expensive classes, quick tier: the refit run only
-            for _ in range((0 if heavy else 1) if quick else (2 if heavy else 6)):
+            for _ in range((0 if heavy else 1) if quick else (1 if heavy else 4)):
                 length = int(rng.integers(3, 9)) if quick else int(rng.integers(4, 15))
                 hs.append((gen_ops(rng, spec, cell, length), not quick))
             for ops, every in hs:
